@@ -1084,25 +1084,19 @@ Proof.
 Qed.
 
 (* the body of a function that returns a function: statements that cannot leave it, then the function-valued expression *)
-Lemma P_fb_succ_fun n ka kr :
+Lemma P_fb_fun_expr n ka kr :
   (forall fl' W', P_farg pv sv bound u fl' W' n) -> (forall fl' W', P_blk pv sv bound u fl' W' n) ->
-  forall g k body ctx c code c' e st r st' sc l E stL F,
-    SyltSem.block_value (S n) e body st = (r, st') ->
-    lower_fbody (statement g) (expression g) body ctx c = Ok (code, c') ->
-    fbody_check (frag_stmts pv sv bound fl k sc) (fun fl1 sc1 x => frag_fexpr pv sv bound fl1 k sc1 x) k body (KF ka kr) = true ->
+  forall g k init value sp ctx c code c' e st r st' sc sc1 fl1 l E stL F,
+    SyltSem.block_value (S n) e (init ++ [SStatementExpression value sp]) st = (r, st') ->
+    lower_fbody (statement g) (expression g) (init ++ [SStatementExpression value sp]) ctx c = Ok (code, c') ->
+    forallb (simple_init_stmt k) init = true -> noexit_fexpr k value = true ->
+    frag_stmts pv sv bound fl k sc init = Some (sc1, fl1) -> frag_fexpr pv sv bound fl1 k sc1 value = Some (KF ka kr) ->
     ucovers u code -> ctx_ok l F E c c' ->
     rel sc e st E stL -> interesting r ->
     exists b l', cshape u l code b l' c c' /\ fb_post pv sv bound u fl W (KF ka kr) sc e E stL b r st'.
 Proof.
-  intros IHF IHb g k body ctx c code c' e st r st' sc l E stL F Hev Hlow Hcheck Hu Hctx Hrel Hint.
+  intros IHF IHb g k init value sp ctx c code c' e st r st' sc sc1 fl1 l E stL F Hev Hlow Hsimple Hne Hfi Hfe Hu Hctx Hrel Hint.
   pose proof Hctx as [Hbc Hlut HFo HEf].
-  cbn [fbody_check] in Hcheck.
-  destruct (split_last body) as [[init last]|] eqn:Hsl; [|discriminate Hcheck].
-  destruct last; try discriminate Hcheck.
-  apply andb_prop in Hcheck as [Hc1 Hc3]. apply andb_prop in Hc1 as [Hsimple Hne].
-  destruct (frag_stmts pv sv bound fl k sc init) as [[sc1 fl1]|] eqn:Hfi; [|discriminate Hc3].
-  destruct (frag_fexpr pv sv bound fl1 k sc1 value) as [K|] eqn:Hfe; [|discriminate Hc3]. apply kind_eqb_eq in Hc3. subst K.
-  apply split_last_inv in Hsl. subst body.
   cbn [SyltSem.block_value] in Hev. unfold lower_fbody in Hlow. rewrite rev_app_distr in Hev, Hlow. cbn [rev app] in Hev, Hlow.
   rewrite rev_involutive in Hev, Hlow.
   mon Hlow. apply lower_list_ok in Hm as (cs & Hmi & ->). mon Hm0. destruct a as [code_v rv]. cbn [fst snd] in *.
@@ -1165,8 +1159,126 @@ Proof.
     destruct Hx3 as (_ & _ & _ & _ & _ & _ & Hn3 & _). lia.
 Qed.
 
+(* ... then `ret` of the function-valued expression *)
+Lemma exec_block_app : forall a n e st b,
+  SyltSem.exec_block n e (a ++ b) st =
+  (let (r, st') := SyltSem.exec_block n e a st in
+   match r with
+   | SyltSem.RVal e' => SyltSem.exec_block (n - length a) e' b st'
+   | SyltSem.RStop o => (SyltSem.RStop o, st')
+   | SyltSem.RAbrupt c => (SyltSem.RAbrupt c, st')
+   end).
+Proof.
+  induction a as [|s a IH]; intros n e st b.
+  - cbn [app length]. rewrite Nat.sub_0_r. destruct n as [|n]; reflexivity.
+  - destruct n as [|n]; [reflexivity|]. cbn [app SyltSem.exec_block length Nat.sub]. unfold SyltSem.bind.
+    destruct (SyltSem.exec n e s st) as [[e1|o|cc] st1]; [apply IH | reflexivity | reflexivity].
+Qed.
+
+Lemma P_fb_fun_ret n ka kr :
+  (forall m, (m <= n)%nat -> forall fl' W', P_farg pv sv bound u fl' W' m) -> (forall fl' W', P_blk pv sv bound u fl' W' n) ->
+  forall g k init value sp ctx c code c' e st r st' sc sc1 fl1 l E stL F,
+    SyltSem.block_value (S n) e (init ++ [SRet (Some value) sp]) st = (r, st') ->
+    lower_fbody (statement g) (expression g) (init ++ [SRet (Some value) sp]) ctx c = Ok (code, c') ->
+    forallb (simple_init_stmt k) init = true -> noexit_fexpr k value = true ->
+    frag_stmts pv sv bound fl k sc init = Some (sc1, fl1) -> frag_fexpr pv sv bound fl1 k sc1 value = Some (KF ka kr) ->
+    ucovers u code -> ctx_ok l F E c c' ->
+    rel sc e st E stL -> interesting r ->
+    exists b l', cshape u l code b l' c c' /\ fb_post pv sv bound u fl W (KF ka kr) sc e E stL b r st'.
+Proof.
+  intros IHF IHb g k init value sp ctx c code c' e st r st' sc sc1 fl1 l E stL F Hev Hlow Hsimple Hne Hfi Hfe Hu Hctx Hrel Hint.
+  pose proof Hctx as [Hbc Hlut HFo HEf].
+  cbn [SyltSem.block_value] in Hev. unfold lower_fbody in Hlow. rewrite rev_app_distr in Hev, Hlow. cbn [rev app] in Hev, Hlow.
+  rewrite rev_involutive in Hlow.
+  mon Hlow. apply lower_list_ok in Hm as (cs & Hmi & ->).
+  destruct g as [|g']; [discriminate Hm0|]. cbn [statement] in Hm0. mon Hm0. destruct a as [code_v rv]. cbn [fst snd] in *.
+  apply ucovers_app in Hu as [Hui Hul]. apply ucovers_app in Hul as [Huv Hur].
+  assert (Hcrv : 1 <= count_of u rv) by (eapply Hur; [left; reflexivity | left; reflexivity]).
+  assert (Hrest : forall l0, exists b2 l2, cshape u l0 code_v b2 l2 c0 c' /\ c0 <= rv /\ rv < c')
+    by (intros lx; apply (L_fexpr_all pv sv bound u fl1 g' k value _ ctx c0 code_v rv c' sc1 lx Hm Hfe)).
+  destruct (Hrest l) as (_ & _ & (_ & Hc0' & _) & _).
+  destruct (L_stmts_all pv sv bound u fl (S g') k init ctx c cs c0 sc (sc1, fl1) l Hmi Hfi) as (_ & _ & (_ & Hcc0 & _)).
+  assert (Hret : forall l0, cshape u l0 [IReturn rv] (fst (agen_one u l0 (IReturn rv))) l0 c' c')
+    by (intros lx; apply cshape_plain; [lia | reflexivity | reflexivity | reflexivity]).
+  pose proof (frag_stmts_flincl pv sv bound _ _ _ _ _ _ Hfi) as Hfn.
+  assert (Hctxi : ctx_ok l F E c c0) by (eapply ctx_sub; [exact Hctx | lia | lia]).
+  (* the reference interpreter: the statements before, then the ret with the fuel that is left *)
+  replace (rev (rev init) ++ [SRet (Some value) sp])%list with (init ++ [SRet (Some value) sp])%list in Hev by (rewrite rev_involutive; reflexivity).
+  unfold SyltSem.bind at 1 in Hev. rewrite exec_block_app in Hev.
+  destruct (SyltSem.exec_block n e init st) as [[e1|o|cc] st1] eqn:He1.
+  3: { exfalso. pose proof (simple_init_noab init n k e st _ _ Hsimple He1) as H. exact H. }
+  2: { inversion Hev; subst.
+       destruct (IHb fl W (S g') k _ ctx c _ c0 e st _ st' sc sc1 fl1 l E stL F He1 Hmi Hfi Hui Hctxi Hrel Hint)
+         as (b1 & l1 & Hs1 & Hp1). destruct (Hrest l1) as (b2 & l2 & Hs2 & _).
+       eexists _, _. split; [eapply cshape_app; [exact Hs1|]; eapply cshape_app; [exact Hs2 | apply Hret]|].
+       cbn [blk_post fb_post] in *. destruct Hp1 as (rl & Hx1 & (ev & stL1 & -> & Htr)).
+       exists ev, stL1. split; [apply ExecS_app_stop; [exact Hx1 | intros []] | exact Htr]. }
+  destruct (IHb fl W (S g') k _ ctx c _ c0 e st _ st1 sc sc1 fl1 l E stL F He1 Hmi Hfi Hui Hctxi Hrel I)
+    as (b1 & l1 & Hs1 & W1 & E1 & stL1 & F1 & Hx1 & Hf1 & Hrel1 & Hw1 & HFn1 & Hk1 & Hse1 & Hinc1).
+  assert (Hctx1 : ctx_ok l1 F1 E1 c0 c') by (eapply (ctx_after_blk bound u); eassumption).
+  pose proof (wr_ncell _ _ _ _ _ _ _ Hf1) as Hn1.
+  destruct (n - length init)%nat as [|[|m2]] eqn:Hm2.
+  1,2: cbn in Hev; inversion Hev; subst; destruct Hint.
+  cbn [SyltSem.exec_block SyltSem.exec] in Hev. unfold SyltSem.bind at 1 2 in Hev.
+  destruct (SyltSem.eval m2 e1 value st1) as [[v_|o|cc] st2] eqn:He2.
+  3: { exfalso. pose proof (noexit_fexpr_noab m2 k e1 value st1 _ _ Hne He2) as H. exact H. }
+  2: { cbn in Hev. inversion Hev; subst.
+       destruct (IHF m2 ltac:(lia) fl1 W1 g' k value _ ctx c0 code_v rv c' e1 st1 _ st' sc1 l1 E1 stL1 F1 He2 Hm Hfe Huv Hcrv Hctx1 Hrel1 Hint)
+         as (b2 & l2 & Hs2 & _ & _ & Hp2). destruct Hp2 as (rl & Hx2 & (ev & stL2 & -> & Htr)).
+       eexists _, _. split; [eapply cshape_app; [exact Hs1|]; eapply cshape_app; [exact Hs2 | apply Hret]|].
+       exists ev, stL2. split; [|exact Htr].
+       eapply ExecS_app; [exact Hx1|]. apply ExecS_app_stop; [exact Hx2 | intros []]. }
+  cbn in Hev. inversion Hev; subst r st'. clear Hev.
+  destruct (IHF m2 ltac:(lia) fl1 W1 g' k value _ ctx c0 code_v rv c' e1 st1 _ st2 sc1 l1 E1 stL1 F1 He2 Hm Hfe Huv Hcrv Hctx1 Hrel1 I)
+    as (b2 & l2 & Hs2 & _ & _ & W2 & E2 & stL2 & F2 & Hw2 & Hok2 & Hrel2 & Hd2).
+  pose proof Hok2 as (Hx2 & Hf2 & _ & _ & Hk2).
+  eexists _, _. split; [eapply cshape_app; [exact Hs1|]; eapply cshape_app; [exact Hs2 | apply Hret]|].
+  cbn [adenotes] in Hd2. destruct Hd2 as (d & HdW & Hdk & -> & Hld).
+  destruct (Hld E2 stL2 (fut_refl _ _ _) (r_wf _ _ _ _ _ _ _ _ _ _ _ Hrel2) (r_linv _ _ _ _ _ _ _ _ _ _ _ Hrel2)) as (st3 & _ & Hm3 & Hx3).
+  cbn [fb_post]. exists fl1, W2, sc1, e1, E2, E2, st3, (VFun (fd_fid d)). splits.
+  + eapply ExecS_app; [exact Hx1|]. eapply ExecS_app; [exact Hx2|].
+    cbn [agen_one fst]. apply XS_stop; [|intros []].
+    eapply Exec_do. apply ExecBlock_of_ExecS; [|repeat constructor | intros []].
+    apply XS_stop; [|intros []]. apply Exec_return. apply EvalList_one. exact Hm3.
+  + cbn [arel]. exists d. auto.
+  + eapply rel_cells_ext; eassumption.
+  + eapply wsub_trans; eassumption.
+  + exact Hse1.
+  + exact Hinc1.
+  + intros w Hw. rewrite Hk2; [apply Hk1; exact Hw|].
+    destruct Hw as [Hw|Hw]; [left; apply Hinc1; exact Hw | right].
+    unfold fnames in *. apply in_map_iff in Hw as (x & <- & Hx). apply in_map. apply Hfn. exact Hx.
+  + pose proof (wr_ncell _ _ _ _ _ _ _ Hf2).
+    destruct Hx3 as (_ & _ & _ & _ & _ & _ & Hn3 & _). lia.
+Qed.
+
+Lemma P_fb_succ_fun n ka kr :
+  (forall m, (m <= n)%nat -> forall fl' W', P_farg pv sv bound u fl' W' m) -> (forall fl' W', P_blk pv sv bound u fl' W' n) ->
+  forall g k body ctx c code c' e st r st' sc l E stL F,
+    SyltSem.block_value (S n) e body st = (r, st') ->
+    lower_fbody (statement g) (expression g) body ctx c = Ok (code, c') ->
+    fbody_check (frag_stmts pv sv bound fl k sc) (fun fl1 sc1 x => frag_fexpr pv sv bound fl1 k sc1 x) k body (KF ka kr) = true ->
+    ucovers u code -> ctx_ok l F E c c' ->
+    rel sc e st E stL -> interesting r ->
+    exists b l', cshape u l code b l' c c' /\ fb_post pv sv bound u fl W (KF ka kr) sc e E stL b r st'.
+Proof.
+  intros IHF IHb g k body ctx c code c' e st r st' sc l E stL F Hev Hlow Hcheck Hu Hctx Hrel Hint.
+  cbn [fbody_check] in Hcheck.
+  destruct (split_last body) as [[init last]|] eqn:Hsl; [|discriminate Hcheck].
+  destruct (tail_fexpr last) as [fx|] eqn:Htl; [|discriminate Hcheck].
+  apply andb_prop in Hcheck as [Hc1 Hc3]. apply andb_prop in Hc1 as [Hsimple Hne].
+  destruct (frag_stmts pv sv bound fl k sc init) as [[sc1 fl1]|] eqn:Hfi; [|discriminate Hc3].
+  destruct (frag_fexpr pv sv bound fl1 k sc1 fx) as [K|] eqn:Hfe; [|discriminate Hc3]. apply kind_eqb_eq in Hc3. subst K.
+  apply split_last_inv in Hsl. subst body.
+  destruct last; try discriminate Htl.
+  - destruct value as [value|]; [|discriminate Htl]. cbn [tail_fexpr] in Htl. inversion Htl; subst fx.
+    eapply (P_fb_fun_ret n ka kr IHF IHb); eassumption.
+  - cbn [tail_fexpr] in Htl. inversion Htl; subst fx.
+    eapply (P_fb_fun_expr n ka kr (IHF n (Nat.le_refl n)) IHb); eassumption.
+Qed.
+
 Lemma P_fb_succ n :
-  (forall fl' W', P_eval pv sv bound u fl' W' n) -> (forall fl' W', P_farg pv sv bound u fl' W' n) ->
+  (forall fl' W', P_eval pv sv bound u fl' W' n) -> (forall m, (m <= n)%nat -> forall fl' W', P_farg pv sv bound u fl' W' m) ->
   (forall fl' W', P_blk pv sv bound u fl' W' n) ->
   P_fb pv sv bound u fl W (S n).
 Proof.
@@ -1422,7 +1534,7 @@ Proof.
     split; [apply P_eval_succ; [assumption | assumption | apply P_ecall_succ; intros W'; apply (IH fl W')]|]. split; [apply P_exec_succ; assumption|].
     split; [apply P_blk_succ; [intros fl' W'; apply (IH fl' W') | intros fl' W'; apply (IH fl' W') | intros fl' W'; apply (IHle (pred n)); lia]|].
     split; [apply P_bv_succ; [intros fl' W'; apply (IH fl' W') | assumption]|].
-    split; [apply P_fb_succ; intros fl' W'; apply (IH fl' W')|].
+    split; [apply P_fb_succ; [intros fl' W'; apply (IH fl' W') | intros m Hm' fl' W'; apply (IHle m); lia | intros fl' W'; apply (IH fl' W')]|].
     split; [apply P_apply_succ; intros fl' W'; apply (IH fl' W')|].
     apply P_farg_succ; intros W'; apply (IH fl W').
 Qed.
